@@ -18,12 +18,18 @@ pub struct PoolSigner {
     pub inner: SoftSigner,
     pool: Vec<KeyId>,
     next: AtomicUsize,
+    /// what the next rand() call of that length returns instead of random octets (the octets a signer hands out are an input
+    /// of whatever the library builds from them, e.g. serial numbers)
+    script: std::sync::Mutex<Option<Vec<u8>>>,
 }
 impl PoolSigner {
     pub fn new(pool_size: usize) -> Self {
         let inner = SoftSigner::new();
         let pool = (0..pool_size).map(|_| inner.create_key(PublicKeyFormat::Rsa).unwrap()).collect();
-        PoolSigner { inner, pool, next: AtomicUsize::new(0) }
+        PoolSigner { inner, pool, next: AtomicUsize::new(0), script: Default::default() }
+    }
+    pub fn script_rand(&self, octets: Option<Vec<u8>>) {
+        *self.script.lock().unwrap() = octets;
     }
     /// the pool key the next sign_one_off will use
     pub fn peek_one_off(&self) -> KeyId {
@@ -52,6 +58,11 @@ impl Signer for PoolSigner {
         Ok((sig, info))
     }
     fn rand(&self, target: &mut [u8]) -> Result<(), Self::Error> {
+        let mut s = self.script.lock().unwrap();
+        if s.as_ref().map(|v| v.len()) == Some(target.len()) {
+            target.copy_from_slice(&s.take().unwrap());
+            return Ok(());
+        }
         self.inner.rand(target)
     }
 }
@@ -364,4 +375,19 @@ pub fn blank_tbs() -> TbsCert {
     thread_local! { static PK: PublicKey = { let s = SoftSigner::new(); let k = s.create_key(PublicKeyFormat::Rsa).unwrap(); s.get_key_info(&k).unwrap() }; }
     let pk = PK.with(|p| p.clone());
     TbsCert::new(Serial::from(1u64), pk.to_subject_name(), Validity::new(time_of(0), time_of(1)), None, pk, KeyUsage::Ca, Overclaim::Refuse)
+}
+
+/// The same instant obtained the k-th way the API offers: as given, through Time::new, and parsed from RFC 3339 text written in
+/// UTC and in two other offsets (an instant does not depend on the zone it is written in).
+pub fn respell(t: Time, k: usize) -> Time {
+    use chrono::{FixedOffset, SecondsFormat};
+    let text = |secs: i32| (*t).with_timezone(&FixedOffset::east_opt(secs).unwrap()).to_rfc3339_opts(SecondsFormat::Millis, secs == 0);
+    let got = match k % 5 {
+        0 => return t,
+        1 => Time::new(*t),
+        2 => Time::from_str(&text(0)).expect("RFC 3339 text in UTC"),
+        3 => Time::from_str(&text(7200)).expect("RFC 3339 text at +02:00"),
+        _ => Time::from_str(&text(-5400)).expect("RFC 3339 text at -01:30"),
+    };
+    got
 }
